@@ -149,7 +149,7 @@ DEPTH_RE = re.compile(r"The depth of the complete state graph search is (\d+)")
 
 
 def tlc_mc(module, cfg, workers=8, timeout=900, xmx="8g", env_extra=None, simulate=None, tag=None,
-           extra_args=()):
+           extra_args=(), allow_timeout=False):
     """Model-check spec/<module>.tla with spec/<cfg>. Returns dict with counts, printed tuples,
     'ok' (no invariant / property violation, no error)."""
     tag = tag or cfg.replace(".cfg", "")
@@ -191,7 +191,14 @@ def tlc_mc(module, cfg, workers=8, timeout=900, xmx="8g", env_extra=None, simula
             res["distinct"] = max(res["distinct"], 1)
     if p.returncode == 124:
         res["timeout"] = True
+        # a best-effort run: invariants were evaluated on every state generated so far (TLC checks them as states are found)
+        pr = re.findall(r"Progress\(\d+\) at [^:]+:[^:]+:[^:]+: ([\d,]+) states generated \([^)]*\), ([\d,]+) distinct states found", out)
+        if pr:
+            res["generated"], res["distinct"] = int(pr[-1][0].replace(",", "")), int(pr[-1][1].replace(",", ""))
     res["ok"] = (p.returncode == 0 and res["violation"] is None and "Error:" not in out)
+    if allow_timeout and p.returncode == 124 and res["violation"] is None and "Error:" not in out and res["distinct"] > 0:
+        res["ok"] = True
+        res["cfg"] = tag + " (stopped by the time limit after %d states: partial, no violation so far)" % res["distinct"]
     log("TLC MC %s: %d distinct / %d generated, depth %d, %.1fs, ok=%s" %
         (tag, res["distinct"], res["generated"], res["depth"], wall, res["ok"]))
     return res
